@@ -38,6 +38,7 @@ static uint8_t  prov_srv_proven[SIM_MAXSRV];   /* server has had a valid server 
 static uint8_t  prov_proven_at_read[SIM_MAXPKT];
 static int      prov_acceptable_adversary; /* an injected packet turned out to be indistinguishable from a genuine reply */
 static uint32_t prov_last_read_serial;
+static int      prov_batch_reads; /* the socket layer hands over everything that is queued in one pass */
 static uint32_t prov_variants_seen;
 
 static int prov_effectively_forged_fwd(uint32_t serial, const char **why);
@@ -161,8 +162,8 @@ static void mon_prov_server_state(int srv, int success, int flags)
   const char *why = "";
   (void)srv;
   (void)flags;
-  if (!success || prov_last_read_serial == 0) {
-    return;
+  if (!success || prov_last_read_serial == 0 || prov_batch_reads) {
+    return; /* (with batched reads a notification cannot be attributed to one packet) */
   }
   MON_EVAL("prov_server_success");
   if (prov_effectively_forged(prov_last_read_serial, &why)) {
@@ -173,7 +174,35 @@ static void mon_prov_server_state(int srv, int success, int flags)
 }
 
 /* the adversary: forge a reply to one of the recent transmissions */
+static void prov_inject_ex(int forced_txi, int forced_v, int64_t delay_us);
 static void prov_inject(void)
+{
+  prov_inject_ex(-1, -1, 0);
+}
+
+/* a forged packet that shadows a genuine reply which makes the library re-send the query (truncation, FORMERR,
+ * bad cookie, error rcodes): it reaches the same socket in the same instant, i.e. in the same read pass, while the
+ * query is between its old connection and the next attempt */
+static void prov_shadow(int srvidx, int fd, int is_tcp, int txidx, int action, int64_t delay_us)
+{
+  static const int vs[] = { PV_WRONG_CASE, PV_WRONG_CASE, PV_NO_COOKIE, PV_WRONG_CLIENT_COOKIE, PV_WRONG_NAME, PV_WRONG_TYPE, PV_WRONG_ADDR_NEAR };
+  (void)srvidx;
+  (void)fd;
+  if (is_tcp || !prov_adv_on || txidx < 0) {
+    return;
+  }
+  if (action != SA_TC && action != SA_FORMERR_NOOPT && action != SA_FORMERR_OPT && action != SA_BADCOOKIE && action != SA_SERVFAIL &&
+      action != SA_REFUSED && action != SA_NOTIMP) {
+    return;
+  }
+  if (!vh_chance(&adv_rng, 1, 2)) {
+    return;
+  }
+  prov_inject_ex(txidx, vs[vh_below(&adv_rng, sizeof(vs) / sizeof(vs[0]))], delay_us);
+  sim_note("adv_shadow_of_a_resend_causing_reply");
+}
+
+static void prov_inject_ex(int forced_txi, int forced_v, int64_t delay_us)
 {
   int           cand[16], nc = 0, i, v, txi, fd, srvidx;
   sim_tx_t     *tx;
@@ -193,7 +222,7 @@ static void prov_inject(void)
   if (nc == 0) {
     return;
   }
-  txi    = cand[vh_below(&adv_rng, (uint32_t)nc)];
+  txi    = forced_txi >= 0 ? forced_txi : cand[vh_below(&adv_rng, (uint32_t)nc)];
   tx     = &sim_tx[txi];
   fd     = tx->fd;
   srvidx = tx->srv;
@@ -204,6 +233,9 @@ static void prov_inject(void)
   v = (int)vh_below(&adv_rng, PV__COUNT + 3);
   if (v >= PV__COUNT) {
     v = PV_NO_COOKIE;
+  }
+  if (forced_v >= 0) {
+    v = forced_v;
   }
   /* rebuild the query view from the logged transmission */
   memset(&q, 0, sizeof(q));
@@ -330,7 +362,7 @@ static void prov_inject(void)
     }
     sim_pktinfo[serial - 1].fd = other;
     p = sim_pkt_new(raw, rawlen, vsock[other].srv, serial);
-    sim_ev_add(sim_now_us, EV_DELIVER, other, 0, p);
+    sim_ev_add(sim_now_us + delay_us, EV_DELIVER, other, 0, p);
     sim_note("adv_wrong_socket");
     return;
   }
@@ -347,7 +379,7 @@ static void prov_inject(void)
     }
     prov_addr_override_set[serial - 1] = 1;
   }
-  sim_ev_add(sim_now_us, EV_DELIVER, fd, 0, p);
+  sim_ev_add(sim_now_us + delay_us, EV_DELIVER, fd, 0, p);
   {
     char nm[64];
     snprintf(nm, sizeof(nm), "adv_%s", pv_names[v]);
@@ -369,6 +401,15 @@ static void gen_prov(vh_rng_t *rng)
    * packet that was just read */
   sim_cfg.nonblocking_flag = 0;
   sim_cfg.one_fd_per_call  = 1;
+  prov_batch_reads         = 0;
+  if (vh_chance(rng, 1, 4)) {
+    /* batched reads: a genuine reply that causes a re-send and the forgery shadowing it are processed in ONE pass
+     * (only the delivered-data rule is judged then) */
+    sim_cfg.nonblocking_flag = 1;
+    sim_cfg.one_fd_per_call  = 0;
+    prov_batch_reads         = 1;
+    sim_note("prov_batched_reads");
+  }
   for (i = 0; i < sim_nsrv; i++) {
     vsrv_t *s = &sim_srv[i];
     int     m = (int)vh_below(rng, 10);
@@ -490,6 +531,7 @@ static void run_prov(vh_rng_t *rng)
   gen_prov(rng);
   mon_tok_done_hook     = mon_prov_tok_done;
   mon_server_state_hook = mon_prov_server_state;
+  srv_sent_hook         = prov_shadow;
   sim_read_hook         = prov_on_read;
   run_generic(rng);
   prov_capture(&prov_a);
